@@ -2,6 +2,7 @@
 package drivers
 
 import (
+	_ "verif/harness/drivers/advplug"
 	_ "verif/harness/drivers/c08webhook"
 	_ "verif/harness/drivers/c09validate"
 	_ "verif/harness/drivers/c12labels"
